@@ -100,7 +100,8 @@ type Obs struct {
 	Rows    []Row  `json:"rows"`
 	Exit    int    `json:"exit"`
 	Msg     string `json:"msg"`
-	Nlog    int    `json:"nlog"`
+	Nlog    int    `json:"nlog"` // [Log] lines in today's wording of a per-input failure report
+	Nunk    int    `json:"nunk"` // other [Log] lines that are not the final message (informational lines, or reports in a wording this driver does not know)
 	Matched int    `json:"matched"`
 	Read    int    `json:"read"`
 	Hang    bool   `json:"hang"`
@@ -373,6 +374,8 @@ func runCLI(rare, root string, sc *Scenario, deadline time.Duration) (Obs, error
 			obs.Msg = "read"
 		case line == "[Log] Parse errors":
 			obs.Msg = "parse"
+		case strings.HasPrefix(line, "[Log] "):
+			obs.Nunk++
 		}
 		if m := summaryRe.FindStringSubmatch(line); m != nil {
 			obs.Matched, _ = strconv.Atoi(strings.ReplaceAll(m[1], ",", ""))
@@ -722,8 +725,10 @@ func compare(t int, sc *Scenario, r *result) []Mismatch {
 	if obs.Msg != exp.Msg {
 		add("msg", fmt.Sprintf("final message: spec %q, got %q", exp.Msg, obs.Msg))
 	}
-	if obs.Nlog != exp.Nerr {
-		add("nlog", fmt.Sprintf("reported read errors: spec %d, got %d", exp.Nerr, obs.Nlog))
+	// every failing input is reported on stderr; the wording of a report is not part of the property, so [Log] lines the
+	// driver does not recognise may stand for reports (never more recognised reports than failures, never fewer lines than failures)
+	if obs.Nlog > exp.Nerr || obs.Nlog+obs.Nunk < exp.Nerr {
+		add("nlog", fmt.Sprintf("reported read errors: spec %d, got %d (+%d other [Log] lines)", exp.Nerr, obs.Nlog, obs.Nunk))
 	}
 	if sc.Cmd == "filter" && len(exp.Partial) == 0 && (obs.Matched != exp.Matched || obs.Read != exp.Read) {
 		add("summary", fmt.Sprintf("summary: spec matched %d / read %d, got %d / %d", exp.Matched, exp.Read, obs.Matched, obs.Read))
